@@ -5,14 +5,19 @@
    - every token before the reported one had been shifted, in source order (the parser never reports
      an earlier, innocent token, and a premature end is reported at the end marker, which carries
      no position);
+   - the tokens before the reported one are a prefix of some input the parser ACCEPTS
+     ([the_shifted_prefix_can_be_completed], Cfg/LRViable.v: the stack of trees of any reachable configuration is
+     completed to a canonical tree of the whole grammar by a kernel-checked certificate, and Cfg/LRComplete.v says
+     its leaves are accepted), and so are all the tokens read before a lexical error;
+   - with the offending token no continuation is accepted ([the_offending_token_admits_no_continuation]).
+   Together: the reported token is the FIRST one after which no valid specification can continue.
    Lexical errors: by C05's scanner_stream the stream ends with EndError at the START of the first
    lexeme the documented automaton cannot classify; the examples below instantiate it for a stray
    character and for an unterminated string, pattern and block comment.
-   PARTIAL: "the shifted prefix is a prefix of some acceptable specification" and "the offending token
-   admits no continuation" need the LR viable-prefix / completeness theorems; they are decided per
-   explored case by an exact Earley oracle for the documented grammar (see DESIGN.md). *)
+   (The harness still compares every explored case with an exact Earley oracle for the documented grammar: that
+   ties "accepted by the parser" to "a sentence of the documentation".) *)
 From Coq Require Import String List Bool Arith NArith.
-From Verif Require Import Cfg.LR Cfg.LRPrefix Reg.Dfa Reg.MaxMunch.
+From Verif Require Import Cfg.LR Cfg.LRSafe Cfg.LRPrefix Cfg.LRComplete Cfg.LRCanon Cfg.LRExact Cfg.LRViable Cfg.EbnfDoc Cfg.EbnfCert Reg.Dfa Reg.MaxMunch.
 From VerifGen Require Import TableGo LexerGo.
 Import ListNotations.
 Local Open Scope N_scope.
@@ -36,6 +41,61 @@ Proof.
   simpl in E. rewrite Nat.sub_0_r in E. exact E.
 Qed.
 Print Assumptions tokens_before_the_error_were_shifted.
+
+Lemma ebnf_safe : safe_check ebnf_grammar ebnf_table ebnf_eof ebnf_err_state ebnf_start ebnf_past = true.
+Proof. vm_compute. reflexivity. Qed.
+
+(* the tokens before the offending one can be continued to an input the parser accepts *)
+Theorem the_shifted_prefix_can_be_completed :
+  forall toks fin fuel tr k, ~ In ebnf_eof toks ->
+    ebnf_run toks fin fuel init = (tr, OSyntaxError k) ->
+    exists w fuel' tr', ebnf_run (firstn k toks ++ w) EndOfInput fuel' init = (tr', OAccept).
+Proof.
+  intros toks fin fuel tr k Hn Hr.
+  exact (error_prefix_can_be_completed ebnf_grammar ebnf_table ebnf_eof ebnf_err_state ebnf_start ebnf_past ebnf_rules
+           ebnf_nul ebnf_first ebnf_V ebnf_Wany ebnf_W ebnf_E ebnf_plans ebnf_wits toks fin
+           ebnf_safe ebnf_complete_check ebnf_canon_check ebnf_viable_check ebnf_no_shift_to_err Hn fuel tr k Hr).
+Qed.
+Print Assumptions the_shifted_prefix_can_be_completed.
+
+(* ... as a canonical tree of the documented grammar (Cfg/EbnfDoc.v) whose leaves begin with those tokens *)
+Theorem the_shifted_prefix_begins_a_sentence :
+  forall toks fin fuel tr k, ~ In ebnf_eof toks ->
+    ebnf_run toks fin fuel init = (tr, OSyntaxError k) ->
+    exists w t, canonical_sentence ebnf_grammar ebnf_start ebnf_rules (firstn k toks ++ w) t.
+Proof.
+  intros toks fin fuel tr k Hn Hr.
+  exact (shifted_prefix_is_viable ebnf_grammar ebnf_table ebnf_eof ebnf_err_state ebnf_start ebnf_past ebnf_rules
+           ebnf_Wany ebnf_W ebnf_E ebnf_plans ebnf_wits toks fin
+           ebnf_safe ebnf_canon_check ebnf_viable_check ebnf_no_shift_to_err Hn fuel tr k Hr).
+Qed.
+Print Assumptions the_shifted_prefix_begins_a_sentence.
+
+Theorem tokens_before_a_lexical_error_begin_a_sentence :
+  forall toks fin fuel tr, ~ In ebnf_eof toks ->
+    ebnf_run toks fin fuel init = (tr, OLexError) ->
+    exists w t, canonical_sentence ebnf_grammar ebnf_start ebnf_rules (toks ++ w) t.
+Proof.
+  intros toks fin fuel tr Hn Hr.
+  exact (tokens_before_lexical_error_are_viable ebnf_grammar ebnf_table ebnf_eof ebnf_err_state ebnf_start ebnf_past ebnf_rules
+           ebnf_Wany ebnf_W ebnf_E ebnf_plans ebnf_wits toks fin
+           ebnf_safe ebnf_canon_check ebnf_viable_check ebnf_no_shift_to_err Hn fuel tr Hr).
+Qed.
+Print Assumptions tokens_before_a_lexical_error_begin_a_sentence.
+
+(* with the offending token, whatever follows, the input is not accepted *)
+Theorem the_offending_token_admits_no_continuation :
+  forall toks fin fuel tr i,
+    ebnf_run toks fin fuel init = (tr, OSyntaxError i) -> (i < length toks)%nat ->
+    forall rest' fin' fuel' tr', ebnf_run (firstn (S i) toks ++ rest') fin' fuel' init <> (tr', OAccept).
+Proof. exact (no_continuation_after_the_error ebnf_grammar ebnf_table ebnf_eof ebnf_err_state). Qed.
+Print Assumptions the_offending_token_admits_no_continuation.
+
+(* the premise is met by concrete inputs, and the completion is a real one *)
+Example a_prefix_and_its_completion :
+  snd (ebnf_run [13; 17; 17; 0; 3; 17; 2; 1] EndOfInput 1000 init) = OSyntaxError 7     (* grammar x a = ( b | ;  *)
+  /\ snd (ebnf_run ([13; 17; 17; 0; 3; 17; 2] ++ [4; 1]) EndOfInput 1000 init) = OAccept.   (* ... ) ; *)
+Proof. vm_compute. split; reflexivity. Qed.
 
 (* a specification that merely ends too early: the end marker is the offending token *)
 Example premature_end_example :
